@@ -6,6 +6,7 @@ TRUSTED_BASE = [
     "axioms: none (Print Assumptions of every property theorem must say 'Closed under the global context')",
     "OCaml extraction with ExtrOcamlBasic only (bool, option, unit, list, prod, sumbool -> OCaml types; nat/positive/N/Z stay inductive), ocamlopt 4.13.1, ocaml/driver.ml",
     "translator gen/gen_params.py (regular expressions over named constants, attributes and label strings of the Rust sources)",
+    "translator gen/gen_limbs.py (rustc -Zunpretty=expanded output of star-sharks -> coq/model/LimbGen.v: the limb code and constants ff_derive generates; stable toolchain with RUSTC_BOOTSTRAP=1 or cargo +nightly); the transcription of ff-0.13's mac/adc/sbb in coq/model/LimbPrim.v",
     "Rust harness /verif/harness (case generation from one splitmix64 stream, catch_unwind, canonical printing) and lib/props.py, ./check",
     "hand-written Gallina model of the repository's logic and of strobe-rs 0.10.0 / keccak (coq/model); tied to the code by the correspondence run, not verified against the Rust",
 ]
